@@ -141,10 +141,11 @@ def run_harnesses(ku, harnesses, jobs=8, playback=False, extra_flags=()):
     while pending or running:
         while pending and len(running) < jobs:
             h = pending.pop(0)
-            cmd = ['cargo', 'kani', '-Z', 'stubbing', '-Z', 'unstable-options', '--harness', 'proofs::' + h.name, '--exact',
-                   '--output-format', 'terse']
+            cmd = ['cargo', 'kani', '-Z', 'stubbing', '-Z', 'unstable-options', '--harness', 'proofs::' + h.name, '--exact']
             if playback:
                 cmd += ['-Z', 'concrete-playback', '--concrete-playback=print']
+            else:
+                cmd += ['--output-format', 'terse']
             cmd += list(extra_flags)
             out = open(os.path.join(ku.dir, f'{h.name}.log'), 'w')
             shell = f"ulimit -v {12 * 1024 * 1024}; exec " + ' '.join(_q(c) for c in cmd)
@@ -220,3 +221,38 @@ def _parse_result(ku, h, rc):
         return
     h.status = 'undecided'
     h.detail = f'kani ended without a verdict (rc={rc}): ' + log[-600:]
+
+
+def confirm_playback(ku, h, timeout=900):
+    """Replays the counterexample of a failed harness natively: the concrete-playback unit test Kani generates is
+    added to a scratch copy of the unit crate (the extracted real function text) and executed with `cargo kani playback`.
+    Returns dict(confirmed: bool|None, test: str, output: str)."""
+    env = dict(os.environ)
+    env['CARGO_NET_OFFLINE'] = 'true'
+    pdir = ku.dir + '-playback'
+    shutil.rmtree(pdir, ignore_errors=True)
+    shutil.copytree(ku.dir, pdir, ignore=shutil.ignore_patterns('target', '*.log'))
+    res = dict(confirmed=None, test=None, output='')
+    try:
+        p = subprocess.run(['cargo', 'kani', '-Z', 'stubbing', '-Z', 'unstable-options', '-Z', 'concrete-playback',
+                            '--concrete-playback=inplace', '--harness', 'proofs::' + h.name, '--exact'],
+                           cwd=pdir, env=env, capture_output=True, text=True, timeout=max(timeout, h.timeout))
+        src = open(os.path.join(pdir, 'src', 'lib.rs')).read()
+        m = re.search(r'(#\[test\]\s*fn kani_concrete_playback_\w+\(\)\s*\{.*?concrete_playback_run\([^;]*;\s*\})', src, re.S)
+        if not m:
+            res['output'] = 'kani produced no concrete playback test: ' + (p.stdout + p.stderr)[-600:]
+            return res
+        res['test'] = m.group(1)
+        q = subprocess.run(['cargo', 'kani', 'playback', '-Z', 'concrete-playback', '--', 'kani_concrete_playback'],
+                           cwd=pdir, env=env, capture_output=True, text=True, timeout=timeout)
+        out = q.stdout + q.stderr
+        res['output'] = out[-2500:]
+        if re.search(r'test result: FAILED', out):
+            res['confirmed'] = True
+        elif re.search(r'test result: ok', out):
+            res['confirmed'] = False
+    except subprocess.TimeoutExpired:
+        res['output'] = 'playback timed out'
+    finally:
+        shutil.rmtree(pdir, ignore_errors=True)
+    return res
